@@ -255,6 +255,8 @@ def check_C10(tier, seed, res, replay=None):
         A, sigma = gen.rand_nfa(rng)
         B, _ = gen.rand_nfa(rng, sigma=sigma)
         cases += c10_variants({"id": ["r", i], "A": A, "B": B, "src": "random"}, rng)
+    for k in vlib.read_ndjson(os.path.join(vlib.SPEC, "killers", "faops.ndjson")):
+        cases.append(dict(k, op="faop"))
     nt = lambda c: gen.nfa_nonempty(c["A"]) and ("B" not in c or gen.nfa_nonempty(c["B"]))
     res.count_cases(cases, nt)
     res.add_samples([c for c in cases if nt(c)][:3])
@@ -265,3 +267,14 @@ def check_C10(tier, seed, res, replay=None):
     rng.shuffle(pick)
     cli_cases = [dict({"id": c["id"], "cmd": cmdof[c["kind"]], "A": c["A"]}, **({"B": c["B"]} if "B" in c else {})) for c in pick[:8000 if tier == "thorough" else 1500]]
     cli_arm.judge(res, rd, "c10", cli_arm.fa_op_events(cli_cases, rd), "TraceFA.tla")
+    # step-level binding of the Layer-2 model FAOps (hooks: Start / Pop in Intersection, RemoveUnreachableStates, GetCandidateTree)
+    from p_ta import bind_model, model_with_mutants
+    pool = [c for c in cases if c["kind"] in ("isect", "unreach", "witness") and not any(k in c for k in ("preA", "preB", "bmode", "swap", "nomap", "amode"))]
+    rng.shuffle(pool)
+    sample = [dict({"id": c["id"], "op": "faoptrace", "kind": c["kind"], "A": c["A"]}, **({"B": c["B"]} if c["kind"] == "isect" else {}))
+              for c in pool[:12000 if tier == "thorough" else 3000]]
+    bind_model(res, rd, "bind", "FAOps", sample, "TraceFAOps.tla", "TraceFAOps.cfg", keep=("A", "B", "kind"))
+    # Layer 2: the constructions as work-list machines, every automaton (pair) of the bound, every pop order
+    model_with_mutants(res, "FAOps.tla", "FAOps.cfg", ["NoFinalStart", "KeepStartFinal", "ReachFromFinal"] if tier == "thorough" else [], "FAOps")
+    model_with_mutants(res, "FAOps.tla", "FAOps_isect.cfg" if tier == "thorough" else "FAOps_isect_q.cfg",
+                       ["StartEither", "FinalEither", "SymbolOfLeft"] if tier == "thorough" else [], "FAOps")
